@@ -59,6 +59,8 @@ pub struct Outcome {
     /// For block cases: the number of distinct non-trivial inner evaluations (they are distinct by
     /// construction of the enumeration).
     pub inner_nontrivial: u64,
+    /// Hashes of non-trivial inner evaluations whose distinctness must be measured.
+    pub inner_hashes: Vec<u64>,
 }
 
 impl Outcome {
@@ -69,6 +71,7 @@ impl Outcome {
             nontrivial: false,
             evals: 1,
             inner_nontrivial: 0,
+            inner_hashes: vec![],
         }
     }
     pub fn violation(sig: impl Into<String>, what: impl Into<String>) -> Self {
@@ -81,6 +84,7 @@ impl Outcome {
             nontrivial: true,
             evals: 1,
             inner_nontrivial: 0,
+            inner_hashes: vec![],
         }
     }
     pub fn label(mut self, l: impl Into<String>) -> Self {
@@ -102,6 +106,7 @@ pub struct Obs {
     pub nontrivial: bool,
     pub evals: u64,
     pub inner_nontrivial: u64,
+    pub inner_hashes: Vec<u64>,
     pub violation: Option<(String, String)>,
 }
 
@@ -112,6 +117,7 @@ impl Obs {
             nontrivial: false,
             evals: 1,
             inner_nontrivial: 0,
+            inner_hashes: vec![],
             violation: None,
         }
     }
@@ -143,6 +149,7 @@ impl Obs {
             nontrivial: self.nontrivial,
             evals: self.evals,
             inner_nontrivial: self.inner_nontrivial,
+            inner_hashes: self.inner_hashes,
         }
     }
 }
@@ -585,7 +592,10 @@ impl<'a, K: Check> WorkerCtx<'a, K> {
                 Source::Generated => st.generated_cases += 1,
                 Source::Enumerated => st.enumerated_cases += 1,
             }
-            if out.evals > 1 || out.inner_nontrivial > 0 {
+            if !out.inner_hashes.is_empty() {
+                st.nontrivial_hashes.extend(out.inner_hashes.iter().copied());
+                st.inner_nontrivial += out.inner_nontrivial;
+            } else if out.evals > 1 || out.inner_nontrivial > 0 {
                 st.inner_nontrivial += out.inner_nontrivial;
             } else if out.nontrivial {
                 st.nontrivial_hashes.insert(case_hash(case));
